@@ -86,6 +86,7 @@ theorem ctxOf_step_other (env : Env) (s : Server) (op : Op) (id : Nat)
     ctxOf (step mac env s op).1 id = ctxOf s id := by
   cases op with
   | kernelRecord p r => rfl
+  | hostCloses i => rfl
   | request i req => simp only [step]; split <;> rfl
   | close i =>
     have hi : i ≠ id := fun e => hc (by rw [e])
@@ -96,27 +97,185 @@ theorem ctxOf_step_other (env : Env) (s : Server) (op : Op) (id : Nat)
     simp only [step, ctxOf, List.find?_cons, hi, decide_false]
     rw [Gpa.Headers.find?_filter_ne'] <;> simp [hi]
 
+theorem contains_filter_ne_self (l : List Nat) (id : Nat) : (l.filter (· ≠ id)).contains id = false := by
+  induction l with
+  | nil => rfl
+  | cons a t ih =>
+    rw [List.filter_cons]
+    by_cases h : a = id
+    · simp only [h, ne_eq, not_true_eq_false, decide_false, Bool.false_eq_true, if_false]; exact ih
+    · simp only [ne_eq, h, not_false_eq_true, decide_true, if_true, List.contains_cons]
+      have : (id == a) = false := by simp [Ne.symm h]
+      rw [this, ih]; rfl
+
+theorem contains_filter_ne_other (l : List Nat) (id j : Nat) (h : j ≠ id) : (l.filter (· ≠ j)).contains id = l.contains id := by
+  induction l with
+  | nil => rfl
+  | cons a t ih =>
+    rw [List.filter_cons]
+    by_cases ha : a = j
+    · subst ha
+      have hia : (id == a) = false := by simp [Ne.symm h]
+      simp only [ne_eq, not_true_eq_false, decide_false, Bool.false_eq_true, if_false, List.contains_cons, hia, Bool.false_or]
+      exact ih
+    · simp only [ne_eq, ha, not_false_eq_true, decide_true, if_true, List.contains_cons, ih]
+
+/-- whether the host has closed a connection's upstream changes only through that connection's own events -/
+theorem hostClosed_step_other (env : Env) (s : Server) (op : Op) (id : Nat)
+    (h : ∀ p, op ≠ .accept id p) (hc : op ≠ .close id) (hh : op ≠ .hostCloses id) :
+    (step mac env s op).1.hostClosed.contains id = s.hostClosed.contains id := by
+  cases op with
+  | kernelRecord p r => rfl
+  | request i req => simp only [step]; split <;> rfl
+  | hostCloses i =>
+    have hi : i ≠ id := fun e => hh (by rw [e])
+    have : (id == i) = false := by simp [Ne.symm hi]
+    simp only [step, List.contains_cons, this, Bool.false_or]
+  | close i =>
+    have hi : i ≠ id := fun e => hc (by rw [e])
+    simp only [step]; exact contains_filter_ne_other _ _ _ hi
+  | accept i p =>
+    have hi : i ≠ id := fun e => h p (by rw [e])
+    simp only [step]; exact contains_filter_ne_other _ _ _ hi
+
 /-- **C07(d)** a request on connection `id` is evaluated with the context fixed at `id`'s accept:
-for any events in between that neither re-accept nor close `id` (other connections' accepts,
-requests, closes, kernel records — in any order), the result is `handle` with that very context. -/
+for any events in between that neither re-accept nor close `id` nor end its upstream connection (other connections' accepts,
+requests, closes, host closes, kernel records — in any order), the result is `handle` with that very context. -/
 theorem requests_use_own_context (env : Env) (s : Server) (id port : Nat) (between : List Op) (req : Req)
-    (hb : ∀ op ∈ between, (∀ p, op ≠ .accept id p) ∧ op ≠ .close id) :
+    (hb : ∀ op ∈ between, (∀ p, op ≠ .accept id p) ∧ op ≠ .close id ∧ op ≠ .hostCloses id) :
     let s1 := (step mac env s (.accept id port)).1
     let s2 := (run mac env s1 between).1
     (step mac env s2 (.request id req)).2 = some (handle mac env (accept s.audit port).2 req) := by
   intro s1 s2
   have h1 : ctxOf s1 id = some (accept s.audit port).2 := by
     simp [s1, step, ctxOf]
-  have h2 : ∀ (ops : List Op) (t : Server), (∀ op ∈ ops, (∀ p, op ≠ .accept id p) ∧ op ≠ .close id) →
-      ctxOf (run mac env t ops).1 id = ctxOf t id := by
+  have h1c : s1.hostClosed.contains id = false := by
+    simp only [s1, step]; exact contains_filter_ne_self _ _
+  have h2 : ∀ (ops : List Op) (t : Server), (∀ op ∈ ops, (∀ p, op ≠ .accept id p) ∧ op ≠ .close id ∧ op ≠ .hostCloses id) →
+      ctxOf (run mac env t ops).1 id = ctxOf t id ∧ (run mac env t ops).1.hostClosed.contains id = t.hostClosed.contains id := by
     intro ops
     induction ops with
-    | nil => intro t _; rfl
+    | nil => intro t _; exact ⟨rfl, rfl⟩
     | cons op ops ih =>
       intro t hops
       simp only [run]
-      rw [ih _ (fun o ho => hops o (List.mem_cons_of_mem _ ho))]
-      exact ctxOf_step_other mac env t op id (hops op List.mem_cons_self).1 (hops op List.mem_cons_self).2
-  simp only [step, s2, h2 between s1 hb, h1]
+      have hop := hops op List.mem_cons_self
+      have ih' := ih (step mac env t op).1 (fun o ho => hops o (List.mem_cons_of_mem _ ho))
+      exact ⟨ih'.1.trans (ctxOf_step_other mac env t op id hop.1 hop.2.1),
+             ih'.2.trans (hostClosed_step_other mac env t op id hop.1 hop.2.1 hop.2.2)⟩
+  obtain ⟨hc2, hh2⟩ := h2 between s1 hb
+  simp only [step, s2, hc2, h1, hh2, h1c, Bool.false_eq_true, if_false]
+
+/-! ### after the host has closed a connection's upstream connection -/
+
+/-- a request on a connection whose upstream the host has closed gets what it would have got, except that nothing is relayed -/
+theorem request_on_closed_upstream (env : Env) (s : Server) (id : Nat) (c : Conn) (req : Req)
+    (hc : ctxOf s id = some c) (hh : s.hostClosed.contains id = true) :
+    (step mac env s (.request id req)).2 = some (afterHostClose (handle mac env c req)) := by
+  simp only [step, hc, hh, if_true]
+
+theorem afterHostClose_never_forwards (r : Result) (u : UpReq) : (afterHostClose r).outcome ≠ .forward u := by
+  unfold afterHostClose
+  cases h : r.outcome with
+  | forward v => intro e; cases e
+  | respond st => rw [h]; intro e; cases e
+  | provision => rw [h]; intro e; cases e
+  | panic => rw [h]; intro e; cases e
+
+/-- refusals (and their records) are what they would have been with a live upstream -/
+theorem afterHostClose_keeps_refusals (r : Result) (h : ∀ u, r.outcome ≠ .forward u) : afterHostClose r = r := by
+  unfold afterHostClose
+  cases hr : r.outcome with
+  | forward v => exact absurd hr (h v)
+  | respond st => rfl
+  | provision => rfl
+  | panic => rfl
+
+theorem afterHostClose_failedAuth (r : Result) : (afterHostClose r).failedAuth = r.failedAuth := by
+  unfold afterHostClose
+  cases r.outcome <;> rfl
+
+/-! ### histories in which the environment (rules in force, latched key, clock) changes between events
+
+Nothing a connection has seen before — earlier requests, the rules or the key in force when it was accepted or when it was last
+used — takes part in a later verdict: a request is judged with the connection's own context and the environment in force when
+that request arrives. (A per-connection cache of a decision, of the rules or of the key would contradict this.) -/
+
+def stepE (s : Server) (e : Env × Op) : Server × Option Result := step mac e.1 s e.2
+
+def runE (s : Server) : List (Env × Op) → Server × List (Option Result)
+  | [] => (s, [])
+  | e :: es =>
+    let r := stepE mac s e
+    let rs := runE r.1 es
+    (rs.1, r.2 :: rs.2)
+
+/-- the server's state after an event does not depend on the environment of that event -/
+theorem step_state_env_free (env env' : Env) (s : Server) (op : Op) : (step mac env s op).1 = (step mac env' s op).1 := by
+  cases op with
+  | kernelRecord p r => rfl
+  | accept id p => rfl
+  | close id => rfl
+  | hostCloses id => rfl
+  | request id req =>
+    simp only [step]
+    cases ctxOf s id <;> rfl
+
+/-- two histories with the same events reach the same state, whatever environments were in force along the way -/
+theorem runE_state_env_free (hs hs' : List (Env × Op)) (s : Server) (hops : hs.map Prod.snd = hs'.map Prod.snd) :
+    (runE mac s hs).1 = (runE mac s hs').1 := by
+  induction hs generalizing hs' s with
+  | nil =>
+    cases hs' with
+    | nil => rfl
+    | cons _ _ => simp at hops
+  | cons e es ih =>
+    cases hs' with
+    | nil => simp at hops
+    | cons e' es' =>
+      simp only [List.map_cons, List.cons.injEq] at hops
+      simp only [runE, stepE]
+      have h1 : (step mac e.1 s e.2).1 = (step mac e'.1 s e'.2).1 := by
+        rw [hops.1]; exact step_state_env_free mac e.1 e'.1 s e'.2
+      rw [h1]
+      exact ih es' _ hops.2
+
+/-- **C07/C01/C04 (no memory of earlier environments)** the answer to the `i`-th event of a history is the same in any other
+history with the same events whose environment agrees at position `i` — however the rules, the key or the clock differed
+before (or after) it -/
+theorem answer_depends_on_environment_in_force (hs hs' : List (Env × Op)) (s : Server)
+    (hops : hs.map Prod.snd = hs'.map Prod.snd) (i : Nat) (hi : (hs[i]?).map Prod.fst = (hs'[i]?).map Prod.fst) :
+    (runE mac s hs).2[i]? = (runE mac s hs').2[i]? := by
+  induction hs generalizing hs' s i with
+  | nil =>
+    cases hs' with
+    | nil => rfl
+    | cons _ _ => simp at hops
+  | cons e es ih =>
+    cases hs' with
+    | nil => simp at hops
+    | cons e' es' =>
+      simp only [List.map_cons, List.cons.injEq] at hops
+      have h1 : (step mac e.1 s e.2).1 = (step mac e'.1 s e'.2).1 := by
+        rw [hops.1]; exact step_state_env_free mac e.1 e'.1 s e'.2
+      cases i with
+      | zero =>
+        simp only [List.getElem?_cons_zero, Option.map_some, Option.some.injEq] at hi
+        simp only [runE, stepE, List.getElem?_cons_zero]
+        rw [hops.1, hi]
+      | succ j =>
+        simp only [List.getElem?_cons_succ] at hi
+        simp only [runE, stepE, List.getElem?_cons_succ]
+        rw [h1]
+        exact ih es' _ hops.2 j hi
+
+/-- in particular: what a kept-alive connection is answered after the rules or the key were replaced is what a history that had
+the new rules and key all along would answer -/
+theorem kept_connection_sees_current_environment (old new : Env) (s : Server) (id port : Nat) (r1 r2 : Req) :
+    (runE mac s [(old, .accept id port), (old, .request id r1), (new, .request id r2)]).2[2]? =
+    (runE mac s [(new, .accept id port), (new, .request id r1), (new, .request id r2)]).2[2]? :=
+  answer_depends_on_environment_in_force mac
+    [(old, .accept id port), (old, .request id r1), (new, .request id r2)]
+    [(new, .accept id port), (new, .request id r1), (new, .request id r2)] s rfl 2 rfl
 
 end Gpa.Props.C07
